@@ -195,12 +195,12 @@ pub fn brick_any(rng: &mut StdRng) -> BrickColor {
 pub fn font_any(rng: &mut StdRng) -> Font {
     let weights = [FontWeight::Thin, FontWeight::Regular, FontWeight::Bold, FontWeight::Heavy, FontWeight::Medium];
     let mut f = Font::new(
-        ["rbxasset://fonts/families/Arial.json", "", "rbxassetid://12345"][rng.gen_range(0..3)],
+        ["rbxasset://fonts/families/Arial.json", "", "rbxassetid://12345", "   ", " \t", "\n", " lead", "trail ", "a]]>b", "<&>\"'", "h\u{e9}"][rng.gen_range(0..11)],
         weights[rng.gen_range(0..weights.len())],
         if rng.gen_bool(0.5) { FontStyle::Normal } else { FontStyle::Italic },
     );
-    if rng.gen_bool(0.4) {
-        f.cached_face_id = Some("rbxasset://fonts/arial.ttf".to_string());
+    if rng.gen_bool(0.5) {
+        f.cached_face_id = Some(["rbxasset://fonts/arial.ttf", "", " ", " \n\t", "x ]]> y"][rng.gen_range(0..5)].to_string());
     }
     f
 }
